@@ -380,6 +380,13 @@ func c06Exec(ctx echo.Context, o c06Op, onBefore, onAfter func(h int), onReg fun
 // must be Response.Status and the body length Response.Size (net/http drops bodies of
 // 204/304 responses: then Write reports 0 bytes written and Size must say so too).
 func c06RoundTrip(c *c06Case) string {
+	for _, o := range c.Ops {
+		if o.C >= 100 && o.C <= 199 {
+			// net/http sends 1xx as informational headers and a final status afterwards; the
+			// comparison "client status == Response.Status" is meaningless there
+			return ""
+		}
+	}
 	e := echo.New()
 	e.Logger.SetOutput(io.Discard)
 	var committed bool
@@ -624,8 +631,13 @@ func c06Ops(c *c06Case) string {
 
 // ---------- generator ----------
 
-var c06Codes = []int{200, 201, 202, 204, 206, 299, 300, 301, 302, 304, 307, 308, 309, 400, 401, 404, 418, 499, 500, 502, 503, 599}
+var c06Codes = []int{100, 101, 102, 103, 199, 200, 201, 202, 204, 206, 299, 300, 301, 302, 304, 307, 308, 309, 400, 401, 404, 418, 499, 500, 502, 503, 599}
 
+// Status codes: 200-599 plus the informational range 1xx.  echo.Response treats a 1xx code like
+// any other (WriteHeader(103) sets Status and commits); that is what the model says and what the
+// recording writer ("first WriteHeader wins") shows.  On a real connection net/http sends 1xx
+// headers as informational and lets a final status follow, so programs containing 1xx codes are
+// kept away from the real-server round trip (see c06RoundTrip).
 func c06Code(r *rand.Rand) int {
 	if r.Intn(4) == 0 {
 		return 200 + r.Intn(400)
@@ -711,6 +723,10 @@ func c06Adversarial(r *rand.Rand) []c06Op {
 	h := 1 + r.Intn(3)
 	tpl := [][]c06Op{
 		{{K: "fl"}, {K: "wh", C: c1}},
+		{{K: "bf", H: h}, {K: "wh", C: 103}, {K: "wh", C: c1}, {K: "w", N: 2}},
+		{{K: "wh", C: 100}, {K: "blob", C: c1, CT: 1, N: 3}},
+		{{K: "bf", H: h}, {K: "nc", C: 102}, {K: "json", C: c1, N: 1}},
+		{{K: "wh", C: 199}, {K: "fl"}, {K: "wh", C: c1}},
 		{{K: "fl"}, {K: "blob", C: c1, CT: 1, N: 3}},
 		{{K: "bf", H: h}, {K: "fl"}, {K: "w", N: 2}},
 		{{K: "bf", H: h}, {K: "fl"}, {K: "fl"}, {K: "wh", C: c1}},
@@ -740,7 +756,7 @@ func c06Adversarial(r *rand.Rand) []c06Op {
 
 func c06Alphabet() []c06Op {
 	return []c06Op{
-		{K: "wh", C: 404}, {K: "wh", C: 201}, {K: "w", N: 3}, {K: "w", N: 0}, {K: "fl"}, {K: "bf", H: 1}, {K: "af", H: 2},
+		{K: "wh", C: 404}, {K: "wh", C: 201}, {K: "wh", C: 103}, {K: "w", N: 3}, {K: "w", N: 0}, {K: "fl"}, {K: "bf", H: 1}, {K: "af", H: 2},
 		{K: "json", C: 500, N: 2}, {K: "json", C: 418, Bad: true}, {K: "blob", C: 202, CT: 1, N: 2}, {K: "nc", C: 204},
 		{K: "redir", C: 302}, {K: "stream", C: 206, Chunks: []int{2, 1}},
 	}
@@ -809,6 +825,11 @@ func c06Gen(r *rand.Rand, tier string) []any {
 			} else {
 				for j := 1 + r.Intn(8); j > 0; j-- {
 					ops = append(ops, c06GenOp(r))
+				}
+			}
+			for k := range ops {
+				if ops[k].C >= 100 && ops[k].C <= 199 {
+					ops[k].C += 100 // no informational codes on a real connection
 				}
 			}
 			out = append(out, &c06Case{Cap: -1, Ops: ops, RoundTrip: true})
@@ -889,7 +910,7 @@ func c06Mutate(r *rand.Rand, ci any) []any {
 func init() {
 	register(&Prop{
 		ID:             "C06",
-		Rule:           "handler programs over {WriteHeader, Write, Flush, Before, After, JSON (serialisable or not), String/HTML/JSONBlob/Blob, NoContent, Redirect (valid and invalid codes), Stream, XMLBlob, JSONPBlob}: exhaustive over a 13-op alphabet up to length 3 (thorough: 5), random programs of 1-12 ops (thorough: 1-24), adversarial templates (flush first, helper after commit, unserialisable JSON then write, redirect code bounds, hooks around multi-write helpers); status codes 200-599; a quarter of the cases with a writer capacity at 0 / total-1 / total / random so writes come back short; a fifth through Echo.NewContext (Status starts at 0) instead of ServeHTTP; thorough: 4000 programs additionally behind a real httptest.Server (client status/body length vs Response.Status/Size); Response fields and the recording writer are sampled after EVERY step; non-trivial = at least one operation after the headers went out AND (a hook registered, or flush as first operation, or a short write, or >=4 distinct tags); distinct = distinct model op lines",
+		Rule:           "handler programs over {WriteHeader, Write, Flush, Before, After, JSON (serialisable or not), String/HTML/JSONBlob/Blob, NoContent, Redirect (valid and invalid codes), Stream, XMLBlob, JSONPBlob}: exhaustive over a 14-op alphabet up to length 3 (thorough: 5), random programs of 1-12 ops (thorough: 1-24), adversarial templates (flush first, helper after commit, unserialisable JSON then write, redirect code bounds, hooks around multi-write helpers); status codes 200-599 and 1xx (100-103, 199; echo.Response commits with them like with any other code); a quarter of the cases with a writer capacity at 0 / total-1 / total / random so writes come back short; a fifth through Echo.NewContext (Status starts at 0) instead of ServeHTTP; thorough: 4000 programs additionally behind a real httptest.Server (client status/body length vs Response.Status/Size; no 1xx codes there, net/http treats them as informational); Response fields and the recording writer are sampled after EVERY step; non-trivial = at least one operation after the headers went out AND (a hook registered, or flush as first operation, or a short write, or >=4 distinct tags); distinct = distinct model op lines",
 		New:            func() any { return &c06Case{} },
 		Gen:            c06Gen,
 		Run:            c06Run,
